@@ -41,7 +41,7 @@ def run(rep, tier):
     from checks import c11
     rep.set_proof(c11.prove_shared(['Properties_C18.v']))
     rep.trusted += ['Coq 8.16.1 kernel', 'extraction + runner/main.ml', 'vlib/stimtext.py (unrolling, fault injection into the spec IR)', 'harness/c18.cc']
-    rep.assumptions += ['the matcher\'s bookkeeping is tied by this oracle, not modelled in Coq; tick and coordinate fields are not checked']
+    rep.assumptions += ['the matcher\'s bookkeeping is tied by this oracle, not modelled in Coq; reported coordinates are compared with get_final_qubit_coords / get_detector_coordinates (tied to the unrolled program by C15)']
     rng = rep.rng()
     N = 3000 if quick else 20000
     pre = []
@@ -62,6 +62,8 @@ def run(rep, tier):
     for (body, nq), so in zip(pre, pre_out):
         sp0 = stimtext.parse_spec_out(so)
         body = c03.add_deterministic_annotations(rng, body, sp0['rec'], 0)
+        if rng.random() < 0.6:
+            body = add_coordinates(rng, body, nq)
         text = stimtext.circuit_text(body)
         # adjacent identical instructions fuse when the implementation parses the text: use the structure of the canonical print
         canon = svh.request('canon', ['circuit'], text)
@@ -84,13 +86,39 @@ def run(rep, tier):
         ir = stimtext.to_spec(flat, names, nsweep=0, noise=False)
         errors = []
         cur = None
+        qc, dc = {}, {}
+        ecoords = []
         for l in out:
             if l.startswith('ERROR'):
                 cur = (frozenset(l.split(' ')[1:]), [])
                 errors.append(cur)
+            elif l.startswith('ECOORDS'):
+                ecoords.append(l.split(' ')[1:])
             elif l.startswith('LOC'):
                 f = dict(x.split('=', 1) for x in l.split(' ')[1:])
                 cur[1].append(f)
+            elif l.startswith('QC '):
+                t = l.split(' ')
+                qc[int(t[1])] = t[2] if len(t) > 2 else ''
+            elif l.startswith('DC '):
+                t = l.split(' ')
+                dc[int(t[1])] = t[2] if len(t) > 2 else ''
+        # coordinates: detectors of every explained error and qubits of every location carry the circuit's coordinates
+        for ec in ecoords:
+            for item in ec:
+                name, co = item.split('@')
+                if name[0] == 'D' and co != dc.get(int(name[1:]), ''):
+                    rep.violation('ErrorMatcher::explain_errors_from_circuit', 'wrong-result', {'circuit': text},
+                                  'detector %s is reported with coordinates (%s) but the circuit gives it (%s)' % (name, co, dc.get(int(name[1:]), '')))
+                    break
+        for targets_, locs_ in errors:
+            for f in locs_:
+                for field in ('pcoords', 'tcoords'):
+                    for item in [x for x in f.get(field, '').split(';') if x]:
+                        q, co = item.split('@')
+                        if q and co != qc.get(int(q), ''):
+                            rep.violation('ErrorMatcher::explain_errors_from_circuit', 'wrong-result', {'circuit': text, 'location': f},
+                                          'qubit %s is reported with coordinates (%s) but the circuit gives it (%s)' % (q, co, qc.get(int(q), '')))
         nloc = 0
         inloop = False
         for targets, locs in errors:
@@ -172,6 +200,31 @@ def run(rep, tier):
     rep.cov['rule'] = ('random annotated noisy circuits (every channel kind, measurement noise, heralded channels, ELSE chains, feedback, MPP, '
                        'REPEAT nesting) with detectors chosen deterministic via the specification; both reduce_to_one_representative_error '
                        'settings, with and without a filter model. Non-trivial = a location inside a REPEAT or more than 3 locations.')
+
+
+def add_coordinates(rng, body, nq):
+    from vlib.stimtext import Instr, T
+    out = []
+    for q in range(nq):
+        if rng.random() < 0.6:
+            out.append(Instr('QUBIT_COORDS', [float(rng.randrange(6)) for _ in range(rng.choice([1, 2, 3]))], [T('q', q)]))
+
+    def go(l, depth):
+        r = []
+        for i in l:
+            if i.name == 'REPEAT':
+                i.body = go(i.body, depth + 1)
+            elif i.name == 'DETECTOR' and rng.random() < 0.8:
+                i.args = [float(rng.randrange(5)) for _ in range(rng.choice([1, 2, 3]))]
+            r.append(i)
+            if i.name in ('E', 'CORRELATED_ERROR', 'ELSE_CORRELATED_ERROR'):
+                continue
+            if rng.random() < 0.08:
+                r.append(Instr('SHIFT_COORDS', [float(rng.randrange(3)) for _ in range(rng.choice([1, 2]))], []))
+            if rng.random() < 0.04:
+                r.append(Instr('QUBIT_COORDS', [float(rng.randrange(6))], [T('q', rng.randrange(nq))]))
+        return r
+    return out + go(body, 0)
 
 
 def replay(path):
